@@ -123,6 +123,13 @@ def flow() -> Route:
     # Create with explicit nexthop=NoNextHop; will be updated via with_nexthop() when parsed
     return Route(nlri, AttributeCollection(), nexthop=IP.NoNextHop)
 
+def _prefix_length(text: str, maximum: int) -> int:
+    """The length of a source / destination prefix: 0 to 32 for IPv4, 0 to 128 for IPv6."""
+    length = int(text)
+    if length < 0 or length > maximum:
+        raise ValueError(f"'{text}' is not a valid prefix length\n  Must be 0 to {maximum}")
+    return length
+
 
 def source(tokeniser: 'Tokeniser') -> Generator[Flow4Source | Flow6Source, None, None]:
     """Update source to handle both IPv4 and IPv6 flows."""
@@ -133,16 +140,16 @@ def source(tokeniser: 'Tokeniser') -> Generator[Flow4Source | Flow6Source, None,
         netmask: str
         ip, netmask = data.split('/')
         raw: bytes = b''.join(bytes([int(_)]) for _ in ip.split('.'))
-        yield Flow4Source.make_prefix4(raw, int(netmask))
+        yield Flow4Source.make_prefix4(raw, _prefix_length(netmask, 32))
     # Check if it's IPv6 without an offset
     elif data.count(':') >= IPv6.COLON_MIN and data.count('/') == SINGLE_SLASH:
         ip, netmask = data.split('/')
-        yield Flow6Source.make_prefix6(IP.pton(ip), int(netmask), 0)
+        yield Flow6Source.make_prefix6(IP.pton(ip), _prefix_length(netmask, 128), 0)
     # Check if it's IPv6 with an offset
     elif data.count(':') >= IPv6.COLON_MIN and data.count('/') == DOUBLE_SLASH:
         offset: str
         ip, netmask, offset = data.split('/')
-        yield Flow6Source.make_prefix6(IP.pton(ip), int(netmask), int(offset))
+        yield Flow6Source.make_prefix6(IP.pton(ip), _prefix_length(netmask, 128), int(offset))
 
 
 def destination(tokeniser: 'Tokeniser') -> Generator[Flow4Destination | Flow6Destination, None, None]:
@@ -154,16 +161,16 @@ def destination(tokeniser: 'Tokeniser') -> Generator[Flow4Destination | Flow6Des
         netmask: str
         ip, netmask = data.split('/')
         raw: bytes = b''.join(bytes([int(_)]) for _ in ip.split('.'))
-        yield Flow4Destination.make_prefix4(raw, int(netmask))
+        yield Flow4Destination.make_prefix4(raw, _prefix_length(netmask, 32))
     # Check if it's IPv6 without an offset
     elif data.count(':') >= IPv6.COLON_MIN and data.count('/') == SINGLE_SLASH:
         ip, netmask = data.split('/')
-        yield Flow6Destination.make_prefix6(IP.pton(ip), int(netmask), 0)
+        yield Flow6Destination.make_prefix6(IP.pton(ip), _prefix_length(netmask, 128), 0)
     # Check if it's IPv6 with an offset
     elif data.count(':') >= IPv6.COLON_MIN and data.count('/') == DOUBLE_SLASH:
         offset: str
         ip, netmask, offset = data.split('/')
-        yield Flow6Destination.make_prefix6(IP.pton(ip), int(netmask), int(offset))
+        yield Flow6Destination.make_prefix6(IP.pton(ip), _prefix_length(netmask, 128), int(offset))
 
 
 # Expressions
